@@ -22,7 +22,7 @@ ASSUMPTIONS = ["model of the acceptance rules and of expansion is written from t
                "canonical comparison: unordered nested tuples of case-folded short-form tag text"]
 MIN_MONITOR_EVALS = {"candidate-verdict": 500, "expansion-equals-model": 500, "expand-idempotent": 500,
                      "shrink-inverts-expand": 500, "history-step-invariant": 2000, "def-expand-validation": 300,
-                     "columnwise-agrees": 100, "table-object-agrees": 50, "duplicate-ignored": 50, "def-expand-unplugged-content": 20}
+                     "columnwise-agrees": 100, "table-object-agrees": 50, "columnwise-long-form-agrees": 50, "duplicate-ignored": 50, "def-expand-unplugged-content": 20}
 VERSIONS = {"quick": ["8.3.0", "8.2.0", "score_2.0.0"], "thorough": ["8.3.0", "8.2.0", "8.1.0", "8.0.0", "score_2.0.0",
                                                                      "score_1.1.0", "testlib_3.0.0"]}
 
@@ -432,6 +432,21 @@ def check_columnwise(case, rec):
         if cn(got_s) != per_shr_c:
             rec.violation(f"df_util.shrink_defs ({form}) disagrees with per-string shrinking", case,
                           key="shrink-defs-frame-noop" if form == "frame" else None)
+    # rows written in long form (the Def tag under its full path): the same rows are expanded and shrunk
+    rec.mon("columnwise-long-form-agrees")
+    try:
+        long_texts = [HedString(t, schema, dd).get_as_long() for t in texts]
+        s2 = pd.Series(list(long_texts))
+        df_util.expand_defs(s2, schema, dd)
+        got_e = list(s2)
+        df_util.shrink_defs(s2, schema)
+        got_s = list(s2)
+        if cn(got_e) != per_exp_c:
+            rec.violation("df_util.expand_defs on rows written in long form disagrees with per-string expansion", case)
+        elif cn(got_s) != per_shr_c:
+            rec.violation("df_util.shrink_defs on rows written in long form disagrees with per-string shrinking", case)
+    except Exception as ex:  # noqa
+        rec.violation(f"column-wise expand/shrink of long-form rows raised {type(ex).__name__}", case)
     # the same through the table object's own methods (they work on its HED columns, in place)
     rec.mon("table-object-agrees")
     try:
